@@ -163,5 +163,47 @@ class NestedIfcConn(Component):
     s.o[1] //= s.x[1].inner[1].msg
 
 
+class TIn(Interface):
+  def construct(s, T):
+    s.msg = InPort(T)
+
+
+class TOut(Interface):
+  def construct(s, T):
+    s.msg = OutPort(T)
+
+
+class HeteroIfcArray(Component):
+  """a list of views of ONE interface class with different member widths (must be refused or translated element-wise)"""
+  def construct(s):
+    s.x = [TIn(Bits8), TIn(Bits16)]
+    s.o0 = OutPort(Bits8)
+    s.o1 = OutPort(Bits16)
+    s.o0 //= s.x[0].msg
+    s.o1 //= s.x[1].msg
+
+
+class TQ(Component):
+  def construct(s, T):
+    s.enq = TIn(T)
+    s.deq = TOut(T)
+    s.deq.msg //= s.enq.msg
+
+
+class HeteroCompIfcArray(Component):
+  """a list of components of one class whose interface members differ in width"""
+  def construct(s):
+    s.i0 = InPort(Bits8)
+    s.i1 = InPort(Bits16)
+    s.o0 = OutPort(Bits8)
+    s.o1 = OutPort(Bits16)
+    s.q = [TQ(Bits8), TQ(Bits16)]
+    s.q[0].enq.msg //= s.i0
+    s.q[1].enq.msg //= s.i1
+    s.o0 //= s.q[0].deq.msg
+    s.o1 //= s.q[1].deq.msg
+
+
 DESIGNS = {"IfcGrid": IfcGrid, "IfcGridLoop": IfcGridLoop, "IfcRow": IfcRow, "FooTop": FooTop, "CompArray": CompArray, "DownLoop": DownLoop,
-           "NestedIfc": NestedIfc, "NestedIfcConn": NestedIfcConn}
+           "NestedIfc": NestedIfc, "NestedIfcConn": NestedIfcConn,
+           "HeteroIfcArray": HeteroIfcArray, "HeteroCompIfcArray": HeteroCompIfcArray}
